@@ -323,7 +323,11 @@ def rule_items(ctx, rule='R13.9'):
             ctx.violation(rule, MA + '.__getitem__', 'getter', 'returns %r instead of the (a,b) pair function of self.data' % (v,), mg.loc())
     except (Unsupported, Raised) as e:
         ctx.undecided(rule, MA + '.__getitem__', str(e), mg.loc())
-    # unknown names
+
+
+def rule_unknown_names(ctx, rule='R13.u'):
+    """unknown type names raise ValueError in both positions of the setter and of the getter (a clause of C13 only: it is
+    about the error path, not about the values other properties build on)"""
     n = 0
     for meth, extra in (('__setitem__', [Num(N.NF.const(0))]), ('__getitem__', [])):
         for pos in (0, 1):
@@ -334,6 +338,7 @@ def rule_items(ctx, rule='R13.9'):
             construct = '%s.%s' % (MA, meth)
             try:
                 _call(ip, a, meth, [Seq(key)] + extra)
+                n += 1
                 ctx.violation(rule, construct, 'unknown-name:%d' % pos, 'an unknown type name in position %d does not raise' % pos)
             except Raised as e:
                 n += 1
